@@ -112,6 +112,16 @@ def _pairing(col, rule="C10.R2"):
         ok = conds == (("cmp", "is not", arg, ("const", "None")),)
         col.add(rule, f"Optimize.step#{mth}({kw}={S.show(arg, False)})-guard@{'pre' if (mth, kw, arg, conds, nid) in pre else 'post'}", ok, sx.loc(nid),
                 "a temporary change is applied exactly when its argument is given", str([S.show(c) for c in conds]))
+    # the call's starting point (the reference of take_best) is evaluated under the masks the steps will use
+    start = [ev.nid for ev, m in sx.calls_some(("call", ("attr", S.SELF, S.V("m", lambda t: t in (
+        "_add_starting_point_to_log_and_print", "tag", "add_point_to_log"))), S.ANY, S.ANY))
+        if any(cfg.path_avoiding(ev.nid, s_, []) for s_ in solver_steps)]
+    if start:
+        late = [r for r in pre if any(cfg.path_avoiding(st, r[4], []) for st in start)]
+        col.add(rule, "Optimize.step#starting-point-evaluated-under-temporary-masks", not late, sx.loc(late[0][4]) if late else sx.loc(start[0]),
+                "the starting point of the call is logged (and its penalty evaluated) after the temporary enable/disable arguments "
+                "were applied: a target disabled for this call does not contribute to the penalty the accepted points are compared with",
+                f"applied after the starting point was logged: {[(r[0], r[1]) for r in late]}")
     if len(pre) < 6:
         raise AnalysisError(f"Optimize.step: only {len(pre)} temporary enable/disable applications found before the steps (expected 6)")
 
@@ -319,6 +329,23 @@ def _stale_copy(col, rule="C10.R5"):
     for r in sx.of_kind("return"):
         if S.contains(r.value, lambda x: x[:1] == ("attr",) and x[2] == "max_step"):
             uses = True
+    # a single common rescaling is right only if its factor is the LARGEST step/max_step ratio
+    def _argmax_of(t):
+        if S.is_call_of(t, ("attr", NP, "argmax")) or S.is_call_of(t, ("attr", NP, "nanargmax")):
+            return t[2][0] if t[2] else None
+        if S.is_call_of(t, meth="argmax") and t[1][:1] == ("attr",):
+            return t[1][1]
+        return None
+    for r in sx.of_kind("return"):
+        for a in S.subterms(r.value):
+            if a[:1] == ("aug",) and a[1] in ("/", "*"):
+                for x in S.subterms(a[3]):
+                    if x[:1] == ("sub",) and _argmax_of(x[2]) is not None:
+                        col.add(rule, "MeritFunctionForMatch._clip_to_max_steps#common-scale-is-the-largest-ratio",
+                                S.canon(_argmax_of(x[2])) == S.canon(x[1]), sx.loc(r),
+                                "when the whole step is rescaled once, the factor is the largest |step|/max_step ratio: the entry picked "
+                                "from the ratio array is the argmax of that same array",
+                                f"factor {S.show(x)[:160]}")
     col.add(rule, "MeritFunctionForMatch._clip_to_max_steps#uses-max_step", uses, sx.loc(sx.fn), "the clip compares |step| with the knobs' max_step", "")
     sx = octx(repo, "JacobianSolver", "step")
     clips = sx.calls_some(("call", ("attr", S.V("f"), "_clip_to_max_steps"), (S.V("s"),), ()))
